@@ -14,6 +14,9 @@ import CrabModel.Dom.RegionSem
     * an allocation-site set per reference variable and per region (the sites of the references
       stored in it).
 
+  The model follows the tree after the C15 fixes (70510e9 .. f6afed4 in /repo); the behaviour
+  before the fixes survives only in the explicitly named `refMakeOld` / `SmallRange.incrementOld`.
+
   What is transcribed (branch by branch, for statically typed regions): `ref_make`, `ref_gep`
   with a constant offset, `ref_load`, `ref_store`, `region_copy`, `ref_free`, join / widening of
   the non-base components, `is_null_ref`, `get_allocation_sites`.
@@ -125,11 +128,17 @@ def isNullRef (D : Base B) (A : RS B) (r : Nat) : Option Bool :=
 /-- `get_allocation_sites(ref)` : `none` = no answer (the set is top) -/
 def getAllocSites (A : RS B) (r : Nat) : Option (List Nat) := A.sites r
 
-/-- `ref_make(ref, rgn, size, as)` as it is in the pinned tree: the counter of the region is
-    incremented with the variable, the reference gets the site; the address ghost variable of
-    `ref` is NOT touched -/
-def refMake (A : RS B) (r g site : Nat) : RS B :=
-  { A with cnt := updN A.cnt g ((A.cnt g).increment r), sites := updN A.sites r (some [site]) }
+/-- `ref_make(ref, rgn, size, as)` : the counter of the region is incremented, the reference gets
+    the site, and the ghost variables of `ref` are forgotten first (`ref_gvars.forget(m_base_dom)`:
+    whatever was known about the old value of `ref` does not hold for the new reference) -/
+def refMake (D : Base B) (A : RS B) (r g site : Nat) : RS B :=
+  { A with cnt := updN A.cnt g ((A.cnt g).increment r), sites := updN A.sites r (some [site]),
+           base := D.forget (.ref r) A.base }
+
+/-- `ref_make` as it was before the fixes 078ec97 (the address ghost variable of `ref` was not
+    touched) and 3175bba (old `increment`).  Kept only for the counterexamples that motivated them. -/
+def refMakeOld (A : RS B) (r g site : Nat) : RS B :=
+  { A with cnt := updN A.cnt g ((A.cnt g).incrementOld r), sites := updN A.sites r (some [site]) }
 
 /-- `ref_gep(ref1, rgn1, ref2, rgn2, k)` with a constant offset -/
 def refGep (D : Base B) (A : RS B) (r1 g1 r2 g2 : Nat) (k : Int) : RS B :=
